@@ -42,7 +42,7 @@ pub fn run(ctx: &mut Ctx) {
     for (n, ok) in r2::selftest() {
         ctx.selftest(&n, ok);
     }
-    ctx.require(&["annex_kat", "fixed_nonce_exact", "free_nonce", "ref_made_accepted", "openssl_made_accepted", "id_default", "id_explicit", "id_empty", "id_8191", "id_too_long", "id_non_ascii_utf8", "msg_empty", "edge_key", "random_key", "e_ge_n", "key_from_constructor", "key_from_gen_keypair", "key_with_jacobian_public_point", "retry:r=0", "retry:r+k=n", "retry:s=0", "digest_regular", "id_len_threshold", "msg_beyond_2^16_bits", "verifier_key_from_compressed_bytes", "id_length_sweep", "signature_with_chosen_leading_bytes", "id_with_surrounding_whitespace"]);
+    ctx.require(&["annex_kat", "fixed_nonce_exact", "free_nonce", "ref_made_accepted", "openssl_made_accepted", "id_default", "id_explicit", "id_empty", "id_8191", "id_too_long", "id_non_ascii_utf8", "msg_empty", "edge_key", "random_key", "e_ge_n", "key_from_constructor", "key_from_gen_keypair", "key_with_jacobian_public_point", "retry:r=0", "retry:r+k=n", "retry:s=0", "digest_regular", "id_len_threshold", "msg_beyond_2^16_bits", "verifier_key_from_compressed_bytes", "id_length_sweep", "signature_with_chosen_leading_bytes", "id_with_surrounding_whitespace", "digest:x1_ge_n_valid"]);
     let c = r2::curve();
 
     // --- Annex example through the library with the nonce injected
@@ -126,6 +126,35 @@ pub fn run(ctx: &mut Ctx) {
                 Outcome::Ret(Err(_)) if first.is_none() => ctx.class("retry_condition_reported_as_error"),
                 o => ctx.violation(&format!("sign(digest):{}:{}", cls, oc(&o)), w),
             }
+        }
+    }
+
+    // --- digest level, verifier side: a conforming (e, r, s) whose recomputed point has x1 in [n, p) must be accepted
+    // (built backwards from a curve point R with x = n + j: P = R + [5]G, s = n - 5, r = 6, e = r - x1 mod n)
+    if ctx.mine(5) {
+        let mut j = 0u32;
+        let rpt = loop {
+            if let Some(pt) = r2::point_from_x(&(&c.n + j)) {
+                break pt;
+            }
+            j += 1;
+        };
+        let pkey = r2::add(&Some(rpt.clone()), &r2::mul(&BigUint::from(5u32), &r2::g())).unwrap();
+        let (r, s_) = (BigUint::from(6u32), &c.n - 5u32);
+        let e = (&r + &c.n - (&rpt.0 % &c.n)) % &c.n;
+        let mut sig = r2::b32(&r).to_vec();
+        sig.extend_from_slice(&r2::b32(&s_));
+        ctx.eval();
+        ctx.class("digest:x1_ge_n_valid");
+        if r2::verify_e(&pkey, &e, &sig) {
+            if let Some(lpk) = lib_pk(&pkey) {
+                match guard(|| lpk.verif_verify_digest(&r2::b32(&e), &sig)) {
+                    Outcome::Ret(Ok(())) => {}
+                    o => ctx.violation(&format!("verify(digest):x1_ge_n:valid-signature-rejected:{}", o.class()), json!({"pk": hex::encode(r2::encode(&pkey, false)), "e": hex::encode(r2::b32(&e)), "sig": hx(&sig)})),
+                }
+            }
+        } else {
+            ctx.violation("harness:digest-level-case-not-as-constructed", json!({"class": "x1_ge_n"}));
         }
     }
 
